@@ -19,6 +19,7 @@ from . import core
 from .world import World, qpoint_pool, CRYSTALS
 
 PROP = "C15"
+CRASH_IS_VIOLATION = True  # a legal API history that kills the interpreter is as stale as an answer can get
 RUN_TIMEOUT = 900.0
 SHRINK_BUDGET = 80
 RULE = (
